@@ -583,6 +583,8 @@ def run(ctx):
     t1(ctx)
     t1_read_as(ctx)
     domain_tolerance_stream(ctx, 60 if ctx.tier == "quick" else 1500)
+    from . import globtie
+    globtie.tie(ctx, 600 if ctx.tier == "quick" else 15000, "--include-fields / --exclude-fields")
     n = 1500 if ctx.tier == "quick" else 40000
     scs = gen_scenarios(ctx.rng, n)
     impls = [run_impl(sc, str(ctx.workdir), i, want_junit=False) for i, sc in enumerate(scs)]
